@@ -129,6 +129,7 @@ type c07Proto struct {
 	name, cfg string
 	ids       []ID // parties that own a stream, sorted
 	cols      int  // columns D of the MSP of the access structure that is dealt under (0: none)
+	weight    int  // tokens of c07Sem one execution takes (0 = 1)
 	run       func(rngs map[ID]io.Reader) *c07Run
 	// seq, when set, runs k consecutive sessions with the SAME reader objects and returns per session
 	// (first messages per party, joint nonce value)
@@ -187,8 +188,42 @@ func c07Streams(seed int64, base uint64, ids []ID, changed ID, alt uint64) (map[
 	return rngs, owner
 }
 
-// c07Sem bounds the number of protocol executions in flight (all cases share it).
-var c07Sem = make(chan struct{}, 12)
+// c07Sem bounds the protocol executions in flight (all cases share it): every execution takes
+// `weight` of the c07SemCap tokens (the base-OT variant of DKLs23 is two orders of magnitude slower
+// than everything else and must not run twelve-fold in parallel: the protocol layer's watchdog would
+// report `hang`).  An execution that still ends in `hang` is repeated once with all tokens held.
+const c07SemCap = 12
+
+var (
+	c07Sem   = make(chan struct{}, c07SemCap)
+	c07AcqMu sync.Mutex
+)
+
+func c07Acquire(w int) {
+	if w < 1 {
+		w = 1
+	}
+	if w > c07SemCap {
+		w = c07SemCap
+	}
+	c07AcqMu.Lock() // one acquirer at a time: partial acquisitions cannot deadlock
+	for range w {
+		c07Sem <- struct{}{}
+	}
+	c07AcqMu.Unlock()
+}
+
+func c07Release(w int) {
+	if w < 1 {
+		w = 1
+	}
+	if w > c07SemCap {
+		w = c07SemCap
+	}
+	for range w {
+		<-c07Sem
+	}
+}
 
 // c07Case runs A, A', B_c for every c (concurrently; emission order is fixed) and the sequence, and
 // emits the lines.
@@ -206,9 +241,9 @@ func c07CaseMode(o *jobOut, reg *c07Registry, seed int64, base uint64, p c07Prot
 		r     *c07Run
 		owner map[ID]string
 	}
-	runWith := func(changed ID, alt uint64) outcome {
-		c07Sem <- struct{}{}
-		defer func() { <-c07Sem }()
+	once := func(changed ID, alt uint64, weight int) outcome {
+		c07Acquire(weight)
+		defer c07Release(weight)
 		rngs, owner := c07Streams(seed, base, p.ids, changed, alt)
 		var r *c07Run
 		msg := safely(func() string { r = p.run(rngs); return "" })
@@ -216,6 +251,14 @@ func c07CaseMode(o *jobOut, reg *c07Registry, seed int64, base uint64, p c07Prot
 			r = &c07Run{status: "harness:" + msg, msgs: map[string][]byte{}, joint: map[string]string{}, reads: map[ID]string{}}
 		}
 		return outcome{r, owner}
+	}
+	runWith := func(changed ID, alt uint64) outcome {
+		out := once(changed, alt, p.weight)
+		if strings.Contains(out.r.status, "hang") {
+			o.Count("reruns-after-watchdog")
+			out = once(changed, alt, c07SemCap)
+		}
+		return out
 	}
 	register := func(r *c07Run, owner map[ID]string, tag string) {
 		for _, id := range sortedKeys(r.firstSlots()) {
@@ -261,13 +304,18 @@ func c07CaseMode(o *jobOut, reg *c07Registry, seed int64, base uint64, p c07Prot
 		wg.Add(1)
 		go func() {
 			defer wg.Done()
-			c07Sem <- struct{}{}
-			defer func() { <-c07Sem }()
-			rngs, owner := c07Streams(seed, base, p.ids, none, 0)
-			seqOwner = owner
-			msg := safely(func() string { seqFirsts, seqJoints, seqStatus = p.seq(rngs, seqK); return "" })
-			if msg != "" {
-				seqStatus = "harness:" + msg
+			for _, w := range []int{p.weight, c07SemCap} {
+				c07Acquire(w)
+				rngs, owner := c07Streams(seed, base, p.ids, none, 0)
+				seqOwner = owner
+				msg := safely(func() string { seqFirsts, seqJoints, seqStatus = p.seq(rngs, seqK); return "" })
+				c07Release(w)
+				if msg != "" {
+					seqStatus = "harness:" + msg
+				}
+				if !strings.Contains(seqStatus, "hang") {
+					break
+				}
 			}
 		}()
 	}
@@ -647,7 +695,11 @@ func c07DKLs23(seed int64, variant, spec string, q []ID) c07Proto {
 		}
 		return r, firsts
 	}
-	return c07Proto{name: "dkls23-" + variant, cfg: "k256;" + spec, ids: q,
+	weight := 1
+	if variant == "bbot" {
+		weight = 2 * (len(q) - 1) // 2 parties: 2, 3 parties: 4
+	}
+	return c07Proto{name: "dkls23-" + variant, cfg: "k256;" + spec, ids: q, weight: weight,
 		run: func(rngs map[ID]io.Reader) *c07Run { r, _ := one(rngs); return r },
 		seq: func(rngs map[ID]io.Reader, k int) ([]map[ID][]byte, []string, string) {
 			var fs []map[ID][]byte
